@@ -43,9 +43,12 @@ def run(tier, prop=PROP, module=MODULE, files=FILES):
                               "baseline harness/baselines/envelopes.json frozen from the repaired pinned tree",
                               "floating-point evaluation, numpy/scipy linear algebra"]
     ck.cov["unproved_clauses"] = ["numerical value of each method's envelope (measured)", "monotone error under refinement (measured)",
-                                  "hansenlaw, direct, onion_bordas, basex, linbasex, rbasex: no Lean operator model (oracle only)"]
+                                  "hansenlaw, direct, onion_bordas (models in C04, no accuracy theorem), basex, linbasex: oracle only; rbasex: radial matrices "
+                                  "modelled and proved equal to their integrals (C09Rbasex), the image-level pipeline is oracle only"]
     ck.cov["source_fingerprint"] = source_fingerprint(files)
     ck.proofs(module)
+    if prop == "C02":
+        ck.proofs("PyAbel.Props.C02Rbasex")          # rBasex forward is exact on radially piecewise-linear distributions, every order
     corr_operators(ck, tier)
     measured = envelopes.measure(sizes, dr_values=drs, direction="inverse" if prop == "C01" else "forward")
     envelopes.compare(ck, measured, envelopes.load_baseline(), prop)
